@@ -142,7 +142,7 @@ def oracle(seed, tier):
                              "other_answer": (out2[k + 1][:600] if k + 1 < len(out2) else "crash"), "relation": "fresh-process", "session_lines": len(lines)})
                 break
     samples = [{"batched": lines[i], "answer": out[i][:160]} for i, ch in enumerate(checks[:len(out)]) if ch and ch[0] == "batched"][:3]
-    return {"violations": viol[:20], "summary": {"cases": cases, "violations": len(viol), "nontrivial": len(nontriv), "worlds": nworlds}, "samples": samples}
+    return {"violations": trim_violations(viol, 20), "summary": {"cases": cases, "violations": len(viol), "nontrivial": len(nontriv), "worlds": nworlds}, "samples": samples}
 
 
 def replay(rp):
